@@ -79,7 +79,9 @@ class Tree:
             d = base if i == 0 else base + "/" + self.rel(i)
             s[d] = None
             for f in self.files(i):
-                s[d + "/" + f] = fsbox.cmake_content(self.rel(i) + "/" + f) if is_cmake(f) or f == "cmake" else "not cmake\n"
+                # the content depends on the base name only: equally named files in different directories are
+                # byte-identical (vendored copies)
+                s[d + "/" + f] = fsbox.cmake_content(f) if is_cmake(f) or f == "cmake" else "not cmake\n"
         return s
 
     def describe(self):
